@@ -201,6 +201,10 @@ func (b *BitMatrix) GetRow(y int, row *BitArray) *BitArray {
 func (b *BitMatrix) SetRow(y int, row *BitArray) {
 	offset := y * b.rowSize
 	copy(b.bits[offset:offset+b.rowSize], row.bits)
+	// a row wider than the matrix must not leak into the padding bits beyond width
+	if shift := uint(b.width % 32); shift != 0 {
+		b.bits[offset+b.rowSize-1] &= uint32(1)<<shift - 1
+	}
 }
 
 func (b *BitMatrix) Rotate180() {
